@@ -192,9 +192,14 @@ var verif_ghost struct {
 	gGetLastHash  hash.Hash       // the address the most recent result carries
 	gGetLastStore *NomsBlockStore // the generation the most recent read was made on
 	gGetGhost     bool            // the ghost generation has been read
-	mSpecsOK      bool            // checkNewSpecsPresent accepted (upstream, contents): every newly named table file is in the directory
-	mSpecsUp      hash.Hash       // lock of the upstream contents that check was made against
-	mSpecsNew     hash.Hash       // lock of the new contents that check was made for
+
+	// generational batched reads (GetMany / getManyCompressed): the sets of still-missing addresses
+	gCopyLast hash.HashSet // the most recent copy of a set of addresses
+	gCopyPrev hash.HashSet // the one before it
+	gCopySrc  hash.HashSet // what the most recent copy was made from
+	mSpecsOK  bool         // checkNewSpecsPresent accepted (upstream, contents): every newly named table file is in the directory
+	mSpecsUp  hash.Hash    // lock of the upstream contents that check was made against
+	mSpecsNew hash.Hash    // lock of the new contents that check was made for
 
 	// root commit through a manifest (NomsBlockStore.updateManifest / ChunkJournal.Update)
 	uCalled        bool      // manifest.Update was invoked
@@ -320,6 +325,7 @@ func verif_x_arIdx_getSuffix(r archiveIndexReader, idx uint32) (x suffix) { retu
 func verif_x_arIdx_searchPrefix(r archiveIndexReader, prefix uint64) (i int32) {
 	return r.searchPrefix(prefix)
 }
+func verif_x_hashset_Copy(hs hash.HashSet) (c hash.HashSet)  { return hs.Copy() }
 func verif_x_tableIndex_chunkCount(ti tableIndex) (n uint32) { return ti.chunkCount() }
 
 // verif_idxCount / verif_idxSfx: what a table index answers, as (uninterpreted) functions of the index and the
